@@ -24,12 +24,12 @@ MIN_NONTRIVIAL = {"quick": 200, "thorough": 2000}
 REQUIRED_FUNCTIONS = ["listener.py:BlackbirdListener.exitInclude", "listener.py:BlackbirdListener.exitStatement", "__init__.py:load"]
 FUNCTIONS = REQUIRED_FUNCTIONS + ["program.py:BlackbirdProgram.__call__"]
 REQUIRED_TAGS = ["nested>=2", "repeat-call", "template-call", "cwd:main-dir", "cwd:parent", "cwd:root", "cwd:unrelated", "path:relative",
-                 "path:absolute", "include:subdir", "include:repeated-line", "include:abs+rel", "neg:arity", "neg:keywords", "include:symlink-dotdot", "call-in-loop", "template-call-in-loop", "include:gate-named-like-another-subroutine", "equal-but-different-values"]
+                 "path:absolute", "include:subdir", "include:repeated-line", "include:abs+rel", "neg:arity", "neg:keywords", "include:symlink-dotdot", "call-in-loop", "template-call-in-loop", "include:gate-named-like-another-subroutine", "equal-but-different-values", "keyword-order-shuffled", "same-values-other-keywords"]
 ASSUMPTIONS = ["reference inlining rule: DESIGN Appendix A rule 11 (sorted(sub.modes) -> call modes, parameters bound from keywords)",
                "files are ASCII; sub-programs contain no measured registers (the statement renames modes only)"]
 
 
-def make_sub(rng, g, name, modeset, template, child=None):
+def make_sub(rng, g, name, modeset, template, child=None, regref_args=False):
     """child: (call name, relpath, nmodes, params) of a nested sub-program to include and call."""
     G = gen.Gen(rng, g, params=0.3 if template else 0.0, regrefs=0.0, loops=0.0, layout=0.1, hostile_names=0.3,
                 funcs=False, complex=rng.random() < 0.3, kwlists=0.3)
@@ -61,6 +61,15 @@ def make_sub(rng, g, name, modeset, template, child=None):
         if pb not in G.params:
             G.params.append(pb)
         stmts.append("Dgate({%s} - 2*{%s}, 0.1) | %d" % (pa, pb, ms[0]))
+    if regref_args:
+        # arguments over several measured registers, not symmetric in them (C19 only: what an
+        # include does to the registers of a sub-program is not part of C07's statement)
+        for _ in range(rng.choice([1, 2])):
+            rs = rng.sample([0, 1, 2, 3, 5, 7, 10, 12, 31, 100], rng.choice([2, 2, 3, 4]))
+            e = "q%d" % rs[0]
+            for k_, r_ in enumerate(rs[1:]):
+                e += rng.choice([" - %d*q%d", " + %d*q%d", " * %d*q%d"]) % (k_ + 2, r_)
+            stmts.append(rng.choice(["Mgate(%s) | %d", "Mgate(0.5, k=%s) | %d", "Mgate(%s, 1) | %d"]) % (e, ms[0]))
     if child:
         cname, _, cn, cparams = child
         if cn <= len(ms):
@@ -73,7 +82,7 @@ def make_sub(rng, g, name, modeset, template, child=None):
     return "\n".join(lines) + "\n"
 
 
-def build(rng, g, symbolic_args=False):
+def build(rng, g, symbolic_args=False, regref_args=False):
     """Returns (files {relative path: text}, main relative path, info).
     symbolic_args: template calls in the main script may pass the main script's own {parameters}
     (used by C19 only; the reference does not interpret such calls)."""
@@ -115,7 +124,7 @@ def build(rng, g, symbolic_args=False):
                     x = rng.choice([0, 1, 2, 3, 5, 8, 12, 17, 40, 64, 100, 120, 7, 9])
                     if x not in pool:
                         pool.append(x)
-            text = make_sub(rng, g, name, pool, template, ch)
+            text = make_sub(rng, g, name, pool, template, ch, regref_args=regref_args and rng.random() < 0.7)
             files[path] = text
             # reference view of this file alone (needs the files below it)
             try:
@@ -164,6 +173,7 @@ def build(rng, g, symbolic_args=False):
     lines.append("")
     body = []
     calls = []
+    prev_call = {}
     for (name, path, nmodes, params, depth) in subs:
         ncalls = rng.choice([1, 1, 2, 2, 3, 4])
         if ncalls >= 2:
@@ -189,7 +199,18 @@ def build(rng, g, symbolic_args=False):
                         body.append("%s%s | %s" % (name, kw, rng.choice(["[%s]", "(%s)", "%s"]) % ", ".join(str(m) for m in modes)))
                         calls.append((name, modes))
                         continue
-                kw = "(" + ", ".join("%s=%s" % (p, rng.choice(vals_)) for p in params) + ")"
+                order = list(params)
+                chosen = [rng.choice(vals_) for _ in params]
+                if len(params) >= 2 and rng.random() < 0.5:
+                    # keyword arguments are written in any order
+                    rng.shuffle(order)
+                    tags.add("keyword-order-shuffled")
+                    if name in prev_call and rng.random() < 0.6 and order != prev_call[name][0]:
+                        # the same sequence of values as an earlier call of this subroutine, other keywords
+                        chosen = prev_call[name][1]
+                        tags.add("same-values-other-keywords")
+                prev_call[name] = (order, chosen)
+                kw = "(" + ", ".join("%s=%s" % (p, v_) for p, v_ in zip(order, chosen)) + ")"
             body.append("%s%s | %s" % (name, kw, rng.choice(["[%s]", "(%s)", "%s"]) % ", ".join(str(m) for m in modes)))
             calls.append((name, modes))
     for _ in range(rng.choice([0, 1, 2, 3])):
@@ -246,6 +267,11 @@ def negative_variant(rng, files, main_path, info):
         return None
     i = rng.choice(idx)
     ln = lines[i]
+    if not ln.startswith((" ", "\t")) and rng.random() < 0.5:
+        # keep the valid call and put the faulty one right after it: the fault
+        # then follows a correct application of the same subroutine with the same arguments
+        lines.insert(i + 1, ln)
+        i += 1
     name = ln.split("(")[0].split(" ")[0]
     sub = names[name]
     head, modes = ln.rsplit("|", 1)
